@@ -114,6 +114,15 @@ def main(argv):
             rc, _ = run_check(p, tier, root)
             worst = max(worst, rc)
         return worst
+    if cmd == "selfcheck":
+        # setup_cmd: verify the interpreter and that /repo parses
+        m = Model(root)
+        n = 0
+        for rel in m.package_files("dask"):
+            m.module(rel)
+            n += 1
+        print(f"[sa] selfcheck: parsed {n} modules under {root}/dask with {sys.version.split()[0]}")
+        return 0
     if cmd == "explain":
         with open(pos[0]) as f:
             rep = json.load(f)
